@@ -858,3 +858,60 @@ func mixFirst(v *rm.Value) bool {
 	}
 	return false
 }
+
+// MapTexts returns a copy of v in which every text leaf (fixed-width and length-prefixed, scalar and list element;
+// discriminator key fields excluded) is replaced by fn(field, text).
+func MapTexts(v *rm.Value, fn func(f *rm.Field, txt []byte) []byte) *rm.Value {
+	c := v.Clone()
+	mapTexts(c, fn)
+	return c
+}
+
+func mapTexts(v *rm.Value, fn func(f *rm.Field, txt []byte) []byte) {
+	if v == nil || v.Nil || v.Type == nil {
+		return
+	}
+	t := v.Type
+	keyIdx := -1
+	if di := t.DynField(); di >= 0 {
+		keyIdx = t.FieldIndex(t.Fields[di].Key)
+	}
+	for i := range t.Fields {
+		if i == keyIdx {
+			continue
+		}
+		f := &t.Fields[i]
+		node := v.Fields[i]
+		switch f.Kind {
+		case "fixtext", "lentext":
+			node.Text = fn(f, node.Text)
+		case "list":
+			for _, e := range node.Elems {
+				switch f.Elem.Kind {
+				case "fixtext", "lentext":
+					e.Text = fn(f.Elem, e.Text)
+				case "struct":
+					mapTexts(e, fn)
+				}
+			}
+		case "struct", "dyn":
+			mapTexts(node, fn)
+		}
+	}
+}
+
+// Salted builds the D base with every text leaf made unique to salt (lower-case base-26 digits of salt written over
+// the start of the text, least significant first — never a pad character, so the value stays canonical) and every
+// scalar leaf perturbed by salt: a session of Salted(t,1), Salted(t,2), ... presents the library with ever new values.
+func Salted(t *rm.Type, salt int) *rm.Value {
+	v := MapTexts(Distinct(t), func(f *rm.Field, txt []byte) []byte {
+		out := append([]byte{}, txt...)
+		s := salt
+		for j := 0; j < len(out) && j < 6; j++ {
+			out[j] = byte('a' + s%26)
+			s /= 26
+		}
+		return out
+	})
+	return v
+}
